@@ -1098,7 +1098,14 @@ fn main() {
 			"evaluations": total, "distinct_nontrivial": total,
 			"rule": "loom explores every interleaving of the scenario's threads at Mutex/RwLock/Condvar operations with at most the stated number of preemptions (DPOR); one schedule = one complete execution of the real code on a fresh database; states/transitions here count complete schedules (loom is stateless)",
 			"parts": parts, "exhaustive": exhaustive, "io_traces_judged_for_power_loss": trace_judgement,
-			"samples": [{"scenario": "workers/2-small-commits", "threads": "log worker, flush worker, commit worker, cleanup worker (the crate's real loops), client: commit, commit, shutdown, join, drop, reopen, read back"}],
+			"samples": [match prop.as_str() {
+				"C15" => json!({"scenario": "workers/2-small-commits", "threads": "log worker, flush worker, commit worker, cleanup worker (the crate's real loops), client: commit, commit, shutdown, join, drop, reopen, read back"}),
+				"C05" => json!({"scenario": "hash/one-pipeline-thread", "threads": "writer: commit T1{k1,k2}, commit T2{k1, del k2}; pipeline: process_commits, flush, process_commits, enact, flush, enact, clean; reader: get k1, get k2, get k1 with the version assertions"}),
+				"C11L" => json!({"scenario": "reader+pruner+writer/one-pipeline-thread", "threads": "reader: lock K1, walk, insert K2 reusing K1's child, walk again, unlock; pruner: [deref K1, b:=A]; writer: b:=B; pipeline thread"}),
+				"C12L" => json!({"scenario": "backlog-2-files/commit+cleanup-workers", "threads": "2 commits logged+flushed without threads; commit worker and cleanup worker (real loops); client: yield, shutdown, join, drop; I/O trace recorded and judged for power loss at every operation boundary"}),
+				"C16L" => json!({"scenario": "backlog-3-files/commit+cleanup-workers/fault-from-op-9", "threads": "3 commits logged+flushed without threads; every file operation from the 9th on fails with EIO; commit worker and cleanup worker (real loops); client: yield, commit, reads, shutdown, join, drop; fault off; reopen; read back"}),
+				_ => json!({}),
+			}],
 			"known_findings_reported": known_lines,
 		},
 		"assumptions": ["sequentially consistent interleavings at lock/condvar operations; std atomics and mapped memory are not scheduling points of their own", "queue thresholds scaled down (commit queue 64 B, log queue 512 B, dirty log files 1): same code paths, smaller numbers", "no spurious condvar wake-ups (loom does not generate them)"],
